@@ -1313,11 +1313,11 @@ void World::corrupt_pages(const Step& s)
         Outcome o = call(FaultSpec{}, [&] {
             if (plan.cfg.table_api && v2 && tstate)
             {
-                tstate->lib = djinterop::engine::v2::engine_library::load(dir);
+                tstate->lib = djinterop::engine::v2::engine_library::load(api_dir());
                 db = tstate->lib->database();
             }
             else
-                db = eng::load_database(dir, ls);
+                db = eng::load_database(api_dir(), ls);
         });
         loaded = !o.threw;
         gate_log.str(o.threw ? "load threw:" + o.exc : "load ok");
